@@ -197,6 +197,14 @@ class PE(BinFormat):
     def getfileoffset(self, addr):
         "converts given address back to offset in file"
         s, offset = self.locate(addr, absolute=True)
+        if s is None:
+            return None
+        if s == 0:
+            # headers are mapped from the start of the file
+            return offset if offset < self.Opt.SizeOfHeaders else None
+        if offset >= s.SizeOfRawData:
+            # zero-filled tail of the section
+            return None
         return s.PointerToRawData + offset
 
     def __functions(self):
